@@ -71,3 +71,58 @@ package benchmath
 //@   requires medianCacheOK(addr(medianCache))
 //@   modifies syncmap(addr(medianCache))
 //@   ensures medianCacheOK(addr(medianCache)) && ci == stats.QuantileCI(n, 0.5, confidence)
+
+// ---------------------------------------------------------------------------
+// Summaries (C13)
+
+// allSame(v, k): the values v[1..k] all equal v[0] (as floats; a single value is trivially all the same).
+//@ pure func allSame(v []float64, k int) bool = forall j int :: 1 <= j <= k && j < len(v) ==> v[j] == v[0]
+
+// Exact model: the interval is the sample's range, the confidence is 1, and
+// there is a warning exactly when the values are not all the same; if they are
+// all the same that value is the centre.
+//@ func (a assumeExact) Summary(s *Sample, confidence float64) (r Summary)
+//@   props C13
+//@   requires s != nil && len(s.Values) >= 1
+//@   ensures bits(r.Lo, s.Values[0]) && bits(r.Hi, s.Values[len(s.Values)-1]) && r.Confidence == 1.0
+//@   ensures allSame(s.Values, len(s.Values)-1) ==> len(r.Warnings) == 0 && bits(r.Center, s.Values[0])
+//@   ensures !allSame(s.Values, len(s.Values)-1) ==> len(r.Warnings) == 1
+//@   loop 1:
+//@     invariant 0 <= idx() <= rlen() && rlen() == len(s.Values) - 1 && unchanged()
+//@     invariant 1 <= count <= idx() + 1 && count <= modeCount && modeCount <= idx() + 1
+//@     invariant val == s.Values[idx()] || (isNaN(val) && isNaN(s.Values[idx()]))
+//@     invariant modeCount == idx() + 1 ==> count == idx() + 1
+//@     invariant count == idx() + 1 ==> allSame(s.Values, idx())
+//@     invariant allSame(s.Values, idx()) ==> count == idx() + 1 && modeCount == idx() + 1 && bits(modeVal, s.Values[0]) && bits(val, s.Values[0])
+//@     decreases rlen() - idx()
+
+// Normal model: mean and t interval of exactly this sample at exactly the requested level.
+//@ func (a assumeNormal) Summary(s *Sample, confidence float64) (r Summary)
+//@   props C13
+//@   requires s != nil
+//@   ensures bits(r.Confidence, confidence) && len(r.Warnings) == 0
+
+// Assume-nothing model: the interval is the median interval of exactly this
+// sample size at the requested level (QuantileCI(n, 0.5, confidence)), its
+// reported confidence is that interval's, and there is a warning exactly when
+// an end of the interval is infinite.
+//@ func (a assumeNothing) Summary(s *Sample, confidence float64) (r Summary)
+//@   props C13
+//@   requires s != nil && medianCacheOK(addr(medianCache))
+//@   modifies syncmap(addr(medianCache))
+//@   ensures medianCacheOK(addr(medianCache))
+//@   ensures bits(r.Confidence, stats.QuantileCI(len(s.Values), 0.5, confidence).Confidence)
+//@   ensures (isInf(r.Lo) || isInf(r.Hi)) ==> len(r.Warnings) == 1
+//@   ensures !(isInf(r.Lo) || isInf(r.Hi)) ==> len(r.Warnings) == 0
+//@   ensures stats.QuantileCI(len(s.Values), 0.5, confidence).LoOrder >= 1 && stats.QuantileCI(len(s.Values), 0.5, confidence).LoOrder <= len(s.Values) ==>
+//@             bits(r.Lo, s.Values[stats.QuantileCI(len(s.Values), 0.5, confidence).LoOrder - 1])
+//@   ensures stats.QuantileCI(len(s.Values), 0.5, confidence).HiOrder >= 1 && stats.QuantileCI(len(s.Values), 0.5, confidence).HiOrder - 1 < len(s.Values) ==>
+//@             bits(r.Hi, s.Values[stats.QuantileCI(len(s.Values), 0.5, confidence).HiOrder - 1])
+
+//@ func medianSamples(confidence float64) (op string, n int)
+//@   requires medianCacheOK(addr(medianCache))
+//@   modifies syncmap(addr(medianCache))
+//@   ensures medianCacheOK(addr(medianCache))
+//@   loop 1:
+//@     invariant 2 <= n <= 51 && medianCacheOK(addr(medianCache))
+//@     decreases 51 - n
